@@ -330,7 +330,11 @@ static Verdict run_case(const CCase &c) {
         // SATURATE == OVER_REVERSE for an opaque source and == DST for an opaque destination (premultiplied inputs); the
         // library may then use the 8-bit pipeline, whose exact result is accepted as well
         uint32_t alt = 0xffffffff;
-        uint32_t sa_eff = c.mask_kind == 0 ? (sp.p8 >> 24) : 0;
+        // (the source is opaque after masking when its alpha and the mask value are both 1: no mask, a unified mask
+        // whose alpha is 1 -- e.g. any mask format without alpha channel -- or a component-alpha mask of all ones)
+        uint32_t sa_eff = sp.p8 >> 24;
+        if (c.mask_kind == 1 && (mp.p8 >> 24) != 255) sa_eff = 0;
+        if (c.mask_kind == 2 && mp.p8 != 0xffffffffu) sa_eff = 0;
         if ((dp.p8 >> 24) == 255) alt = dp.p8;
         else if (sa_eff == 255) alt = rc8::combine(PIXMAN_OP_OVER_REVERSE, sp.p8, mp.p8, c.mask_kind, dp.p8);
         if (alt != 0xffffffff && ((encode8888(df, alt) ^ got) & dm) == 0) {
